@@ -97,5 +97,37 @@ TEXTS = {
                  "fill_from_lockfile seeding, used_yanked_packages bookkeeping) - these need the builder model."),
         "technique": "Coq proof (loop invariant of the fold-max, refinement to a declarative best-of-tier spec, uniqueness) + bounded-exhaustive and sampled differential testing of the extracted model against the public API + proved decision procedure on real answers",
     },
+    "C16": {
+        "text": ("(a) Export resolution: Coq theorems over an executable model of exports_and_re_exports_inner / "
+                 "exports_and_re_exports / ModuleInfoRef::exports with the shared visited set (Model/Symbols.v), for ALL "
+                 "module tables: the set of names resolved at a module equals its own names plus the non-default own "
+                 "names of every module reachable through one or more resolved star re-exports (least fixed point, "
+                 "C16_exports_set), an own name resolves to the module's own binding (C16_own_first), fuel = number of "
+                 "modules suffices with cyclic re-exports (C16_terminates); which binding an ambiguous name lands on is "
+                 "first-found and not part of the statement. The complete real resolved map (with re-export paths) and "
+                 "unresolved list of every module of every explored program is compared with the extracted model, and "
+                 "the real name set is judged by a decision procedure proved equivalent to the declarative statement. "
+                 "(b) Tree shape: the 3100-line SymbolFiller is NOT modelled; wf_symtabb is proved sound "
+                 "(C16_wf_checker_sound: unique ids, parentless root, every other symbol has an existing parent and - if "
+                 "all its declarations are definitions - is listed there exactly once among children+members and not in "
+                 "both, alias symbols are not listed, every listed id exists and has the lister as parent, parent chains "
+                 "reach the root, root paths are unique and exist for definition chains, export ids exist, declarations "
+                 "carry the symbol's name and a range inside the text) and run on the real table of every module of the "
+                 "symbol/graph spec corpus and of generated programs. (c) go-to-definition: NOT modelled; called on every "
+                 "symbol under a watchdog, results judged by a proved-sound checker (definition declaration that exists "
+                 "in the dump, or explicit unresolved marker). Three genuine defects are recorded as known findings: "
+                 "F-C16a (valid TypeScript: a dotted namespace segment re-declared in its body becomes its own child), "
+                 "F-C16b (TypeScript-invalid conflicting declarations yield mixed alias/definition symbols; includes one "
+                 "of the repository's own specs), F-C16c (a circular import alias makes go-to-definition overflow the "
+                 "stack)."),
+        "design_ref": "DESIGN.md section 5 C16",
+        "note": ("Trusted: Coq kernel; extraction; the harness's dump of the symbol tables through the public API "
+                 "(ids from SymbolId's Debug form, names interned, ranges relative to the text start), its TS program "
+                 "generator, the spec-file parser, and - for known-finding classification only - its computation of the "
+                 "three input classes from the swc AST of the sources. (b) and (c) are translation validation of explored "
+                 "outputs, not proofs about the builder; termination of go-to-definition is observed (5 s watchdog, child "
+                 "process for the known crashing class), not proved."),
+        "technique": "Coq proof (DFS with shared visited set: invariant + closure argument giving the least fixed point; fuel bound) + differential testing of the extracted model against ModuleInfoRef::exports + proved-sound checkers (translation validation) on real symbol tables and go-to-definition results + watchdog",
+    },
 }
 NOT_YET = {}
